@@ -1713,15 +1713,10 @@ func (d *DotGit) CountLooseRefs() (int, error) {
 
 // PackRefs packs all loose refs into the packed-refs file.
 //
-// This implementation only works under the assumption that the view
-// of the file system won't be updated during this operation.  This
-// strategy would not work on a general file system though, without
-// locking each loose reference and checking it again before deleting
-// the file, because otherwise an updated reference could sneak in and
-// then be deleted by the packed-refs process.  Alternatively, every
-// ref update could also lock packed-refs, so only one lock is
-// required during ref-packing.  But that would worsen performance in
-// the common case.
+// References may be updated while this runs: each loose reference is
+// locked and checked again before its file is deleted (pruneLooseRef),
+// so that an update that sneaked in after the reference was read is
+// not deleted with it.
 //
 // TODO: add an "all" boolean like the `git pack-refs --all` flag.
 // When `all` is false, it would only pack refs that have already been
@@ -1787,17 +1782,46 @@ func (d *DotGit) PackRefs() (err error) {
 		return err
 	}
 
-	// Delete all the loose refs, while still holding the packed-refs
-	// lock.
+	// Delete the loose refs that were packed, while still holding the
+	// packed-refs lock.
 	for _, ref := range refs[:numLooseRefs] {
-		path := d.fs.Join(".", ref.Name().String())
-		err = d.fs.Remove(path)
-		if err != nil && !os.IsNotExist(err) {
+		if err = d.pruneLooseRef(ref); err != nil {
 			return err
 		}
 	}
 
 	return nil
+}
+
+// pruneLooseRef removes the loose file of a reference that PackRefs has just
+// written to packed-refs. As in git, this is done under the lock of the
+// reference and only if the file still holds the value that was packed: a
+// reference that was updated after PackRefs read it keeps its loose file,
+// which shadows the older packed value. A reference that is locked is being
+// updated right now and is left alone for the same reason; not waiting for it
+// also means PackRefs (packed-refs lock, then reference locks) cannot
+// deadlock with RemoveRef (reference lock, then packed-refs lock).
+func (d *DotGit) pruneLooseRef(packed *plumbing.Reference) error {
+	name := packed.Name().String()
+	lock, err := d.lockRef(name, 0)
+	if err != nil {
+		if errors.Is(err, os.ErrExist) {
+			return nil
+		}
+		return err
+	}
+
+	cur, err := d.readReferenceFile(".", name)
+	if err == nil && *cur == *packed {
+		err = d.fs.Remove(d.fs.Join(".", name))
+	}
+	if os.IsNotExist(err) || errors.Is(err, ErrIsDir) {
+		err = nil // removed, or replaced by nested references, meanwhile
+	}
+	if uerr := d.unlockRef(name, lock); err == nil {
+		err = uerr
+	}
+	return err
 }
 
 // Module return a billy.Filesystem pointing to the module folder
